@@ -382,10 +382,58 @@ func subCompGlyph(i int, cs []int) *glyf.Glyph {
 		}
 		cc[k] = glyf.GlyphComponent{Flags: fl, GlyphIndex: glyph.ID(c), Data: []byte{0, 0}}
 	}
+	// Instruction blocks, chosen by the glyph id: none / WE_HAVE_INSTRUCTIONS (0x0100) on the
+	// first component only / on the last only / on every component.  (The decoder accepts the
+	// flag on any component.)
+	var instr []byte
+	if len(cc) > 0 && i%4 != 0 {
+		for q := 0; q <= i%3; q++ {
+			instr = append(instr, byte(0x40+i+q))
+		}
+		switch i % 4 {
+		case 1:
+			cc[0].Flags |= 0x0100
+		case 2:
+			cc[len(cc)-1].Flags |= 0x0100
+		case 3:
+			for k := range cc {
+				cc[k].Flags |= 0x0100
+			}
+		}
+	}
 	return &glyf.Glyph{
 		Rect16: funit.Rect16{URx: funit.Int16(subCompURx + i), URy: 10},
-		Data:   glyf.CompositeGlyph{Components: cc},
+		Data:   glyf.CompositeGlyph{Components: cc, Instructions: instr},
 	}
+}
+
+// subCompGlyphOf rebuilds the original composite glyph id of the font description.
+func subCompGlyphOf(sf *subFont, id int) *glyf.Glyph {
+	for _, c := range sf.comps {
+		if c.g == id {
+			return subCompGlyph(c.g, c.cs)
+		}
+	}
+	return nil
+}
+
+// subSameComposite: g is the composite orig up to the glyph indices of its components (bounding
+// box, component flags and argument bytes, instruction bytes all equal).
+func subSameComposite(g, orig *glyf.Glyph) bool {
+	if g == nil || orig == nil || g.Rect16 != orig.Rect16 {
+		return false
+	}
+	a, ok1 := g.Data.(glyf.CompositeGlyph)
+	b, ok2 := orig.Data.(glyf.CompositeGlyph)
+	if !ok1 || !ok2 || len(a.Components) != len(b.Components) || !bytes.Equal(a.Instructions, b.Instructions) {
+		return false
+	}
+	for k := range a.Components {
+		if a.Components[k].Flags != b.Components[k].Flags || !bytes.Equal(a.Components[k].Data, b.Components[k].Data) {
+			return false
+		}
+	}
+	return true
 }
 
 func subName(kind string, k int) string {
@@ -790,7 +838,7 @@ func subRender(b *subBuilt, res *sfnt.Font) (string, string) {
 					pay = id
 				} else if _, isC := g.Data.(glyf.CompositeGlyph); isC {
 					id := int(g.URx) - subCompURx
-					if id >= 0 && id < sf.n && b.isComp[id] {
+					if id >= 0 && id < sf.n && b.isComp[id] && subSameComposite(g, subCompGlyphOf(sf, id)) {
 						pay = id
 					}
 					for _, c := range g.Components() {
